@@ -527,21 +527,16 @@ def _account(agg, rep, symptoms, extra, shaped, has_dummy, mode, param, descr, i
             tgt[key] = {"count": 1, "what": f"{descr}: {detail}", "item": dict(item, symptom=sym)}
 
 
-def _safe(fn):
+def _guard(fn, task):
     """Workers must not let a BaseException (ExplorerError, ReplayDivergence, HarnessBug)
     escape: it would kill the pool process and hang the run.  It is returned instead
     and re-raised by run() as a harness error."""
-    import functools
-
-    @functools.wraps(fn)
-    def wrapped(task):
-        try:
-            return fn(task)
-        except BaseException as e:  # noqa: BLE001
-            import traceback
-            return {"harness_error": f"{type(e).__name__}: {e}", "task": repr(task)[:400],
-                    "tb": traceback.format_exc()[-1500:]}
-    return wrapped
+    try:
+        return fn(task)
+    except BaseException as e:  # noqa: BLE001
+        import traceback
+        return {"harness_error": f"{type(e).__name__}: {e}", "task": repr(task)[:400],
+                "tb": traceback.format_exc()[-1500:]}
 
 
 def _raise_harness_errors(results):
@@ -571,7 +566,8 @@ def _eval_graph(task):
     return agg
 
 
-eval_graph = _safe(_eval_graph)
+def eval_graph(task):
+    return _guard(_eval_graph, task)
 
 
 # ================================================= independence cross-check (small)
@@ -604,7 +600,8 @@ def _eval_strategies(task):
     return compared
 
 
-eval_strategies = _safe(_eval_strategies)
+def eval_strategies(task):
+    return _guard(_eval_strategies, task)
 
 
 def _eval_independence(task):
@@ -629,7 +626,8 @@ def _eval_independence(task):
     return checked
 
 
-eval_independence = _safe(_eval_independence)
+def eval_independence(task):
+    return _guard(_eval_independence, task)
 
 
 # ======================================================= Part B: real builder CFGs
@@ -739,7 +737,8 @@ def _eval_builder(task):
     return agg
 
 
-eval_builder = _safe(_eval_builder)
+def eval_builder(task):
+    return _guard(_eval_builder, task)
 
 
 # =========================================================================== run
@@ -756,13 +755,13 @@ def _plan(tier):
     if tier == "quick":
         return [
             P(n=2, nvars=2, general=True),
-            P(n=3, nvars=2),
+            P(n=3, nvars=2, alph=_NO_UA),
             P(n=4, nvars=1, modes=("LA", "AA")),
             P(n=4, nvars=1, modes=("LF",), only=((),)),
         ]
     return [
         P(n=2, nvars=2, general=True, max_dummy=2),
-        P(n=3, nvars=2, general=True),
+        P(n=3, nvars=1, general=True),
         P(n=3, nvars=2, max_dummy=2),
         P(n=4, nvars=1, max_dummy=2),
         P(n=4, nvars=2, modes=("AA",)),
